@@ -18,6 +18,10 @@ TRUSTED = ["rustc nightly MIR construction", "std::io::_print is the only stdout
 
 PRINT_FNS = {"std::io::_print", "std::io::stdout", "std::io::Stdout::write", "std::io::Write::write_all"}   # stdout only: C04 is observed there
 OUT_CELLS = ("print", "print_list", "nl")
+# the built-in predicates of the documented language: only print / print_list / nl among them write anything.  A built-in
+# with a name outside this vocabulary (added later, e.g. `write`) may print: programs that do not use it cannot tell.
+DOCUMENTED_BUILTINS = ("print", "append", "functor", "include", "exclude", "print_list", "unify", "equal", "less_than",
+                       "less_than_or_equal", "greater_than", "greater_than_or_equal", "nl", "!", "count", "fail")
 
 
 def run(ctx):
@@ -46,9 +50,12 @@ def run(ctx):
             if e["callee"] in cg.nodes:
                 cell_callees.setdefault(c, set()).add(e["callee"])
     allowed = set()
-    for c in ("print", "print_list"):
+    new_cells = sorted(c for c in cell_callees if c not in DOCUMENTED_BUILTINS)
+    for c in ("print", "print_list") + tuple(new_cells):
         for f in cell_callees.get(c, ()):
             allowed |= cg.reach([f])
+    if new_cells:
+        ctx.note("built-ins outside the documented vocabulary (may print): %s" % new_cells)
     # elapsed printer: called in the Time arm after the sub-search
     time_printers = set()
     for p in S.paths(E, 3):
@@ -70,7 +77,7 @@ def run(ctx):
             bad = None
             for p in bps:
                 pr = [e for e in p.calls() if e["callee"] in PRINT_FNS]
-                if pr and str_cell(p) not in ("nl",):
+                if pr and (str_cell(p) is None or (str_cell(p) != "nl" and str_cell(p) in DOCUMENTED_BUILTINS)):
                     bad = (p, pr[0])
             ctx.ob("R1", "printer(%s)" % b.npath, bad is None, ctx.where(b, bad[1]["line"] if bad else None),
                    "the dispatcher writes to stdout in cell `%s`" % str_cell(bad[0]) if bad else
